@@ -248,14 +248,17 @@ class ChangeScenario(Scenario):
                 p = env.memo.get('pipeline')
                 if p is not None:
                     p.stop()
-                self.start_operator(env)
+                    env.memo['pipeline'] = None
+                    env.memo['stopping'] = p.task
+                self.start_when_stopped(env)
             elif action == 'stop':
                 p = env.memo.get('pipeline')
                 if p is not None:
                     p.stop()
                     env.memo['pipeline'] = None
+                    env.memo['stopping'] = p.task
             elif action == 'start':
-                self.start_operator(env)
+                self.start_when_stopped(env)
             elif action == 'kill':
                 p = env.memo.get('pipeline')
                 if p is not None:
@@ -271,11 +274,32 @@ class ChangeScenario(Scenario):
                 env.loop.create_task(p.pause_toggle.turn_to(False), name='user resume')
             elif action == 'compact':
                 w.compact(K)
+            elif action in ('relist', 'reconnect', 'reset', 'bookmark'):
+                p = env.memo.get('pipeline')
+                verb = {'relist': 'gone410', 'reconnect': 'eof', 'reset': 'reset', 'bookmark': 'bookmark'}[action]
+                for st in w.open_streams():
+                    if p is not None and st.opid == p.opid and st.kind.key == K.key:
+                        env.stream_fault(st, verb)
             elif action == 'noop':
                 pass
             else:
                 raise ValueError(action)
         return do
+
+    def start_when_stopped(self, env: Env) -> None:
+        """A new process starts only after the previous one has fully exited (as a real restart does)."""
+        old = env.memo.get('stopping')
+        if old is None or old.done():
+            env.memo['stopping'] = None
+            self.start_operator(env)
+        else:
+            env.memo['starting'] = True
+
+            def later(_: Any) -> None:
+                if env.memo.pop('starting', False) and not env.closed:
+                    env.memo['stopping'] = None
+                    self.start_operator(env)
+            old.add_done_callback(later)
 
     def kill_and_restart(self, env: Env) -> None:
         p = env.memo.get('pipeline')
